@@ -6,8 +6,10 @@ import Driver.Util
   rec UMIN CMAX CMAXCOUNT NCT PRUNE      run the recorder model under these options -> root info
   leaves                                 est / in_edge_kind / first_ready_t of every interval
   flat                                   the flat-interval-list specification of the totals
+  tot                                    tree-level account of the .stat edge totals of the last `rec`
   dag NW                                 flatten the in-memory DAG of the last `rec` (dr_make_pi_dag) -> arrays
   shrink UMIN CMAX CMAXCOUNT             dr_copy_pi_dag of the last `dag` with conversion-time options -> arrays
+  load dag N M NS NW <N .. E .. S ..>    load explicit arrays (the canonical print of `dag`) as G
   wf G|H  /  replay G|H  /  stat G|H     checker verdict, chronological replay counters, gen_stat totals
                                          of the last `dag` (G) or `shrink` (H)
 -/
@@ -94,6 +96,31 @@ def showWf (G : PiDag) : String :=
 
 def pick (s : St) (w : String) : PiDag := if w == "H" then s.H else s.G
 
+def ekOf : Nat → EKind
+  | 0 => .end_ | 1 => .create | 2 => .createCont | 3 => .waitCont | _ => .otherCont
+
+def intOf (s : String) : Int := s.toInt?.getD 0
+
+/-- parse the canonical print of a position independent DAG (`showDag`) -/
+partial def parseDag (toks : List String) (G : PiDag) : Option PiDag :=
+  match toks with
+  | [] => some G
+  | "N" :: k :: ik :: st :: en :: est :: t1 :: tinf :: frt :: lst :: r0 :: r1 :: r2 :: r3 :: r4 ::
+      n0 :: n1 :: n2 :: n3 :: e0 :: e1 :: e2 :: e3 :: e4 :: cur :: mn :: nch :: w :: sw :: ew ::
+      sf :: sl :: ef :: el :: eb :: ee :: a :: b :: rest =>
+    let c : Core :=
+      { start := ⟨natOf st, intOf sw, ⟨natOf sf, natOf sl⟩⟩, end_ := ⟨natOf en, intOf ew, ⟨natOf ef, natOf el⟩⟩,
+        est := natOf est, t1 := natOf t1, tinf := natOf tinf, firstReadyT := natOf frt, lastStartT := natOf lst,
+        tReady := ⟨natOf r0, natOf r1, natOf r2, natOf r3, natOf r4⟩,
+        nc := ⟨natOf n0, natOf n1, natOf n2, natOf n3⟩, ec := ⟨natOf e0, natOf e1, natOf e2, natOf e3, natOf e4⟩,
+        nChild := natOf nch, worker := intOf w, kind := nkOf (natOf k), inEdgeKind := ekOf (natOf ik) }
+    let x : PNode := { info := { c := c, cur := natOf cur, min := natOf mn }, eb := natOf eb, ee := natOf ee,
+                       a := natOf a, b := natOf b }
+    parseDag rest { G with T := G.T.push x }
+  | "E" :: k :: u :: v :: rest => parseDag rest { G with E := G.E.push ⟨ekOf (natOf k), natOf u, natOf v⟩ }
+  | "S" :: f :: rest => parseDag rest { G with S := G.S ++ [natOf f] }
+  | _ => none
+
 def step (s : St) (line : String) : St × String :=
   match Driver.words line with
   | "tree" :: v :: sc :: rf :: rl :: "T" :: toks =>
@@ -111,6 +138,9 @@ def step (s : St) (line : String) : St × String :=
                       nodeCountTarget := natOf nct, pruneThreshold := natOf prune }
     let d := record s.v o s.startClock s.tree
     ({ s with dag := d }, "root " ++ showInfo d.info ++ s!" count {d.count}")
+  | ["tot"] =>
+    let e := totN s.dag
+    (s, s!"tot {e.end_} {e.create} {e.createCont} {e.waitCont} {e.otherCont}")
   | ["leaves"] =>
     let ls := leafInfosTree s.v s.tree (rootCursor s.startClock)
     (s, "leaves " ++ joinSp (ls.map fun i => s!"{i.c.est} {i.c.inEdgeKind.toNat} {i.c.firstReadyT}"))
@@ -126,6 +156,13 @@ def step (s : St) (line : String) : St × String :=
   | ["shrink", umin, cmax, cmc] =>
     let H := shrink { uncollapseMin := natOf umin, collapseMax := natOf cmax, collapseMaxCount := natOf cmc } s.G
     ({ s with H := H }, showDag H)
+  | "load" :: "dag" :: n :: m :: ns :: nw :: toks =>
+    match parseDag toks { nw := natOf nw } with
+    | some G =>
+      if G.T.size == natOf n && G.E.size == natOf m && G.S.length == natOf ns then ({ s with G := G }, s!"loaded {n} {m} {ns}")
+      else (s, "bad-dag-sizes")
+    | none => (s, "bad-dag")
+  | ["dag-echo"] => (s, showDag s.G)
   | ["wf", w] => (s, showWf (pick s w))
   | ["replay", w] => (s, showReplay (pick s w))
   | ["stat", w] => (s, showStat (pick s w))
